@@ -204,6 +204,21 @@ func init() {
 		}
 		return Slice{A: out}
 	})
+	v("Go", func(ex *Exec, fr *Frame, a []Value) Value {
+		ex.goStmt(fr, a[1], nil)
+		return nil
+	})
+	v("Atomic", func(ex *Exec, fr *Frame, a []Value) Value {
+		s := ex.sched()
+		s.noYield++
+		defer func() { s.noYield-- }()
+		ex.callValue(fr, a[0], nil, false)
+		return nil
+	})
+	v("WaitQuiescent", func(ex *Exec, fr *Frame, a []Value) Value {
+		ex.waitQuiescent()
+		return nil
+	})
 	v("Snapshot", func(ex *Exec, fr *Frame, a []Value) Value {
 		dir := filepath.Clean(strOf(a[0]))
 		sn := &snapV{}
